@@ -229,7 +229,8 @@ class Report:
         return code
 
 
-def depend(rep: 'Report', world, module_name: str, rule_prefixes: tuple, as_rule: str, text: str, floor: int = 1):
+def depend(rep: 'Report', world, module_name: str, rule_prefixes: tuple, as_rule: str, text: str, floor: int = 1,
+           only=None):
     """Re-use rules of another property as *dependency* obligations: the instances of the selected
     rules are evaluated by that module and recorded here under `as_rule` (construct prefixed with the
     original rule id).  Known findings of the other property stay known only there; here a failing
@@ -255,6 +256,6 @@ def depend(rep: 'Report', world, module_name: str, rule_prefixes: tuple, as_rule
         raise cache[module_name]
     rep.rule(as_rule, text, floor=floor)
     for inst in cache[module_name]:
-        if inst.rule in rule_prefixes:
+        if inst.rule in rule_prefixes and (only is None or only(inst.construct)):
             rep.check(as_rule, f'{inst.rule}|{inst.construct}', inst.ok, line=inst.line, file=inst.file,
                       why=inst.why, facts=inst.facts, trivial=inst.trivial)
